@@ -77,6 +77,10 @@ def add_hostile(rng, pr, sc_root):
         lambda: mk("a/plain-dir/z.task.4"),
         lambda: mk("notes.txt", file=True),
         lambda: mk("my.dir/q.task.3"),
+        # package directories whose names only LOOK like task directories when '.' is read as 'any character'
+        lambda: (mk("bench_task_2/keep.task"), mk("bench_task_2/ghost.task.9")),
+        lambda: mk("multitask12/deep/ghost.task.4"),
+        lambda: (mk("a-task-3/keep.task"), mk("xtaskx5")),
     ]
     if rows and not isinstance(rows, str):
         r0 = rng.choice(rows)
@@ -100,6 +104,13 @@ def add_hostile(rng, pr, sc_root):
     if rng.random() < 0.5 and os.path.isdir(os.path.join(out, "a")):
         os.symlink("a", os.path.join(out, "link-in"))
         added.append("link-in ->a")
+    if rng.random() < 0.4:
+        # a symbolic link that is NAMED like an experiment output
+        tgt = os.path.join(sc_root, "linked-exp-%d" % rng.randrange(10 ** 6))
+        os.makedirs(tgt, exist_ok=True)
+        open(os.path.join(tgt, "precious"), "w").write("x")
+        os.symlink(tgt, os.path.join(out, "lnk.task.5"))
+        added.append("lnk.task.5 ->outside")
     # look-alikes outside cond-out
     os.makedirs(os.path.join(pr.root, "z.task.9"), exist_ok=True)
     open(os.path.join(pr.root, "z.task.9", "keep"), "w").write("project root")
@@ -118,6 +129,11 @@ def eval_case(case):
 
     with common.Scratch("cv13") as sc:
         pr = statecheck.std_project(sc.root)
+        if case.get("condout_symlink"):
+            # cond-out lives on other storage and is reached through a symbolic link
+            real_out = os.path.join(sc.root, "storage", "deeper", "cond-out-real")
+            os.makedirs(real_out)
+            os.symlink(real_out, os.path.join(pr.root, "cond-out"))
         hist = statecheck.run_history(pr, rng, case["nruns"])
         if case.get("foreign_collision"):
             T = 2_000_000_000
@@ -129,18 +145,27 @@ def eval_case(case):
             rr = pr.cond(["restore", fa], timeout=60)
             hist.append({"foreign_restore_exit": rr.code})
         added, outside = add_hostile(rng, pr, sc.root)
-        outroot = os.path.join(pr.root, "cond-out")
+        outroot = os.path.realpath(os.path.join(pr.root, "cond-out"))
+
+        def snap_project():
+            sn = statecheck.full_snapshot(pr.root)
+            if os.path.islink(os.path.join(pr.root, "cond-out")):
+                for k0, v0 in statecheck.full_snapshot(outroot).items():
+                    sn["cond-out/" + k0] = v0
+            return sn
+
+        last_dry = None
         for mode in case["modes"]:
             rows = pr.rows()
             if isinstance(rows, str):
                 out["inconclusive"].append({"why": "index unreadable", "detail": rows})
                 break
             delete, dontcare = model_delete(outroot, rows)
-            before = statecheck.full_snapshot(pr.root)
+            before = snap_project()
             before_out = statecheck.full_snapshot(outside) if os.path.isdir(outside) else {}
             argv = ["gc"] + {"gc": [], "dry": ["-n"], "verbose": ["-v"], "dry-long": ["--dry-run"], "dry-verbose": ["-n", "-v"], "verbose-long": ["--verbose"]}[mode]
             r = pr.cond(argv, timeout=120)
-            after = statecheck.full_snapshot(pr.root)
+            after = snap_project()
             after_out = statecheck.full_snapshot(outside) if os.path.isdir(outside) else {}
             W = {"engine": "E4", "case": case, "history": hist, "added": added, "mode": mode, "rows": rows, "model_delete": sorted(os.path.relpath(d, pr.root) for d in delete), "result": cli.brief(r, 1500)}
             bump("c13_gc_runs")
@@ -152,8 +177,9 @@ def eval_case(case):
                 ch = sorted(set(before_out.items()) ^ set(after_out.items()))[:4]
                 out["violations"].append({"key": "C13:deleted-outside-cond-out-through-symlink", "msg": "gc changed a directory outside cond-out reached through a symlink: %s" % ch, "witness": W})
                 break
-            dc_rel = {os.path.relpath(d, pr.root) for d in dontcare}
-            del_rel = {os.path.relpath(d, pr.root) for d in delete}
+            relp = lambda d: os.path.join("cond-out", os.path.relpath(d, outroot))
+            dc_rel = {relp(d) for d in dontcare}
+            del_rel = {relp(d) for d in delete}
 
             def under(p, roots):
                 return any(p == r0 or p.startswith(r0 + os.sep) for r0 in roots)
@@ -167,6 +193,7 @@ def eval_case(case):
                 for line in r.out.splitlines():
                     if line.startswith("Would delete "):
                         listed.add(os.path.normpath(line[len("Would delete "):]))
+                last_dry = set(listed)
                 listed = {p for p in listed if not under(p, dc_rel)}
                 bump("c13_dry_run_checks")
                 if listed != del_rel:
@@ -174,6 +201,14 @@ def eval_case(case):
                     break
             else:
                 gone = {k for k in before if k not in after}
+                if last_dry is not None:
+                    # whatever the model says: a dry run must have announced exactly what the real gc then removed
+                    top_gone = {k for k in gone if not any(k != g and k.startswith(g + os.sep) for g in gone)}
+                    bump("c13_dry_vs_real_checks")
+                    if top_gone != last_dry:
+                        out["violations"].append({"key": "C13:dry-run-lists-different-set", "msg": "gc --dry-run announced %s, the gc that followed removed %s" % (sorted(last_dry), sorted(top_gone)), "witness": W})
+                        break
+                last_dry = None
                 wrongly_gone = sorted(k for k in gone if not under(k, del_rel) and not under(k, dc_rel))
                 still = sorted(k for k in del_rel if k in after)
                 changed = sorted(k for k in after if k in before and before[k] != after[k] and not under(k, dc_rel) and os.path.basename(k) not in ("version_index.sqlite",))
@@ -219,7 +254,7 @@ def main(tier, n=None):
     cases = []
     for i in range(total):
         modes = rng.choice([["dry", "gc"], ["dry-long", "verbose"], ["gc"], ["verbose", "dry"], ["dry", "gc", "gc"], ["dry-verbose", "gc"], ["dry-verbose", "verbose-long"]])
-        cases.append({"seed": rng.randrange(1 << 30), "nruns": rng.randint(1, 4), "modes": modes, "foreign_collision": rng.random() < 0.3})
+        cases.append({"seed": rng.randrange(1 << 30), "nruns": rng.randint(1, 4), "modes": modes, "foreign_collision": rng.random() < 0.3, "condout_symlink": rng.random() < 0.2})
     cli.warm()
     res = common.parallel_map(eval_case, cases, timeout=900)
     rep.merge_pool(res, cases)
